@@ -785,3 +785,10 @@ Proof.
   - vm_compute. reflexivity.
   - vm_compute. reflexivity.
 Qed.
+
+Lemma http_settings_irrelevant :
+  (forall s k v, apply_mut s (OHttpSet k v) = s)
+  /\ (forall H cfg regs regs2 sub hist hc1 hc2,
+        model_with H (Build_input cfg regs regs2 sub hist hc1)
+        = model_with H (Build_input cfg regs regs2 sub hist hc2)).
+Proof. split; [intros [g regs] k v; reflexivity | reflexivity]. Qed.
